@@ -149,6 +149,14 @@ fn related_pair() -> BoxedStrategy<(String, String)> {
             b.push_str(build);
             if swap { (b, a) } else { (a, b) }
         }),
+        // the deciding identifiers are two numbers beyond u64 (by value: more digits is greater);
+        // zerv may reject both versions, but if it reads them it has to order them by value
+        1 => (big_version_with(0), "[1-9][0-9]{19,23}", "[1-9][0-9]{19,23}", proptest::collection::vec(gens::pick(&["0", "a", "1", "post"]), 0..3)).prop_map(|(a, n1, n2, rest)| {
+            let base = a.split('+').next().unwrap().to_string();
+            let sep = if base.contains('-') { "." } else { "-" };
+            let tail: String = rest.iter().map(|r| format!(".{r}")).collect();
+            (format!("{base}{sep}{n1}{tail}"), format!("{base}{sep}{n2}{tail}"))
+        }),
         // b = a with one identifier in the middle lengthened (the identifiers after it stay), so
         // that one identifier is a proper prefix of its counterpart and more identifiers follow
         2 => (big_version(), any::<prop::sample::Index>(), gens::pick(&["-", "-2", "-a", "0", "a", "--", "-0"]), any::<bool>()).prop_map(|(a, at, suffix, swap)| {
@@ -199,7 +207,9 @@ fn check_git_max(c: &GitTagsCase, cx: &mut Cx) -> Res {
     }
     cx.nt_if(made.len() >= 2);
     cx.label_if(c.decoy.is_some(), "branch-named-like-a-tag");
-    if !c.auto && !made.iter().any(|t| osem::parse_v(t).is_some_and(|p| osem::all_numbers_fit_u64(&p))) {
+    // a name with a number beyond u64 is a version only if zerv reads it as one (documented range)
+    let counts = |t: &String| osem::parse_v(t).is_some_and(|p| osem::all_numbers_fit_u64(&p) || SemVer::from_str(t).is_ok());
+    if !c.auto && !made.iter().any(counts) {
         ensure!(o.code == Some(1) && o.stdout.is_empty(), "no SemVer tag among {made:?}, but zerv exits {:?} with {:?}", o.code, o.out_str());
         return Ok(());
     }
